@@ -189,3 +189,35 @@ Theorem partial_roundtrip f nargs kws :
   | None => False
   end.
 Proof. reflexivity. Qed.
+
+(* ---------- DataclassEntry: the integer entry i reaches the i-th child ---------- *)
+Theorem dc_entry_hits_child (V : Type) fs (x : inst V) i v :
+  nth_error (init_children V fs x) i = Some v ->
+  exists n, dc_entry_field fs i = Some n /\ get V n x = v.
+Proof.
+  unfold init_children, dc_entry_field. intros H.
+  destruct (nth_error (init_fields fs) i) as [f|] eqn:E.
+  - exists (fname f). split; [reflexivity|].
+    rewrite (map_nth_error (fun f => get V (fname f) x) i (init_fields fs) E) in H. injection H as <-. reflexivity.
+  - exfalso. apply nth_error_None in E.
+    assert (Hl : (i < length (map (fun f => get V (fname f) x) (init_fields fs)))%nat)
+      by (apply nth_error_Some; rewrite H; discriminate).
+    rewrite map_length in Hl. lia.
+Qed.
+
+Theorem dc_entry_count (V : Type) fs (x : inst V) :
+  length (init_children V fs x) = length (init_fields fs) /\
+  forall i, (i < length (init_fields fs))%nat <-> dc_entry_field fs i <> None.
+Proof.
+  split; [apply map_length|]. intros i. unfold dc_entry_field. split.
+  - intros H. destruct (nth_error (init_fields fs) i) eqn:E; [discriminate|]. apply nth_error_None in E. lia.
+  - intros H. apply nth_error_Some. destruct (nth_error (init_fields fs) i); [discriminate | exfalso; apply H; reflexivity].
+Qed.
+
+(* indexing all fields instead names another attribute as soon as a non-init field precedes an init field *)
+Theorem dc_entry_all_fields_refuted :
+  exists fs i, dc_entry_field fs i <> dc_entry_field_all fs i /\ dc_entry_field fs i <> None.
+Proof.
+  exists [{| fname := 1; finit := false; fnode := false |}; {| fname := 2; finit := true; fnode := false |}], 0%nat.
+  split; discriminate.
+Qed.
